@@ -294,7 +294,7 @@ func c10Compare(c *core.Case, src []byte, sb *hclsyntax.Body, wb *hclwrite.Body,
 			return fmt.Sprintf("%s: block %d (%s) has labels %q in the source but the hclwrite tree exposes %q", path, i, blk.Type, blk.Labels, wl), "labels"
 		}
 		for j := range wl {
-			if nfc(wl[j]) != nfc(blk.Labels[j]) {
+			if wl[j] != blk.Labels[j] {
 				return fmt.Sprintf("%s: block %d (%s) has labels %q in the source but the hclwrite tree exposes %q", path, i, blk.Type, blk.Labels, wl), "labels"
 			}
 		}
